@@ -22,7 +22,7 @@ ASSUMPTIONS = ["orientation of a row = Rz(psi).Rx(theta).Rz(phi) (DESIGN section
                "flip_handedness is judged only when the dimension table covers every tomogram of the list",
                "z-mirror conjugate of R is M.R.M with M = diag(1,1,-1)"]
 
-CLASSES = ["random", "half_ties", "gimbal", "wide_angles", "negative_positions", "n1", "multi_tomo_flip", "single_dim_flip",
+CLASSES = ["odd_index", "random", "half_ties", "gimbal", "wide_angles", "negative_positions", "n1", "multi_tomo_flip", "single_dim_flip",
            "compose_shift", "compose_rot", "flip_twice", "update_only"]
 OTHER = [c for c in gens.COLS if c not in ("x", "y", "z", "shift_x", "shift_y", "shift_z", "phi", "theta", "psi")]
 M = np.diag([1.0, 1.0, -1.0])
@@ -267,6 +267,17 @@ def gen(ctx, i, cls):
         ops = [rand_op() for _ in range(nops)]
     summ = {"n": n, "tomos": len(tomos), "ops": [{k: (v if k != "Q" else np.round(np.array(v), 3).tolist()) for k, v in o.items()} for o in ops],
             "row0": {k: float(df[k].iloc[0]) for k in ("x", "shift_x", "z", "shift_z", "phi", "theta", "psi")}}
+    # a list whose table index is not 0..n-1 (what remove_feature / row filters / reset_index=False subsets leave behind)
+    index_kind = "range"
+    if cls == "odd_index" or rng.random() < 0.25:
+        index_kind = str(rng.choice(["permuted", "gaps", "reversed"]))
+        if index_kind == "permuted":
+            df.index = rng.permutation(n)
+        elif index_kind == "gaps":
+            df.index = np.sort(rng.choice(np.arange(3 * n + 5), n, replace=False))
+        else:
+            df.index = np.arange(n)[::-1]
+    summ["index"] = index_kind
     return {"i": i, "cls": cls, "df": df, "ops": ops, "dim_rows": dim_rows, "summary": summ}
 
 
